@@ -4,7 +4,7 @@ use std::borrow::Cow;
 
 use winnow::{
     ascii::{space0, space1},
-    combinator::{cond, cut_err, not, opt, preceded, repeat, terminated, trace},
+    combinator::{alt, cond, cut_err, not, opt, preceded, repeat, terminated, trace},
     error::StrContext,
     stream::{AsChar, Stream, StreamIsPartial},
     token::{one_of, take_while},
@@ -39,8 +39,10 @@ where
             opt(preceded(one_of('='), primitive::date)),
         )
         .parse_next(input)?;
-        let is_shortest = has_peek(character::line_ending_or_eof).parse_next(input)?;
-        // Date (and effective date) should be followed by space, unless followed by line_ending.
+        let is_shortest =
+            has_peek(alt((character::line_ending_or_eof, one_of(';').void()))).parse_next(input)?;
+        // Date (and effective date) should be followed by space,
+        // unless followed by line_ending or metadata.
         cond(!is_shortest, space1).void().parse_next(input)?;
         let clear_state = metadata::clear_state(input)?;
         let code = opt(terminated(character::paren_str, space0)).parse_next(input)?;
@@ -51,10 +53,7 @@ where
             0..,
             preceded(
                 // a line made only of spaces and tabs ends the transaction
-                terminated(
-                    take_while(1.., b" \t"),
-                    not(character::line_ending_or_eof),
-                ),
+                terminated(take_while(1.., b" \t"), not(character::line_ending_or_eof)),
                 cut_err(Deco::decorate_parser(posting::posting)),
             ),
         )
@@ -96,6 +95,21 @@ mod tests {
             (
                 "",
                 Transaction::new(NaiveDate::from_ymd_opt(2022, 1, 23).unwrap(), "")
+            )
+        );
+    }
+
+    #[test]
+    fn transaction_parses_metadata_right_after_date() {
+        let input = "2022/01/23;note\n";
+        assert_eq!(
+            expect_parse_ok(transaction, input),
+            (
+                "",
+                Transaction {
+                    metadata: vec![syntax::Metadata::Comment(Cow::Borrowed("note"))],
+                    ..Transaction::new(NaiveDate::from_ymd_opt(2022, 1, 23).unwrap(), "")
+                }
             )
         );
     }
